@@ -1,2 +1,25 @@
-(* Props/C07.v — placeholder until the proofs land. *)
-From Coq Require Import ZArith.
+(* Props/C07.v — property C07: IPSet algebra and queries agree with plain set theory on addresses.
+   This file ties the C07 theorems to C06: the two operands may be ANY two sets reachable by ANY history of IPSet
+   operations (they satisfy SetInv, the hypothesis of every C07 theorem).  The operator theorems are in
+   Props/C07_ops.v (& - ^ | update isdisjoint, with the sweep helpers), the query theorems in Props/C07_queries.v
+   (membership, subset/superset, < > ==, size/len, iter_ipranges, iscontiguous, iprange, iteration order); both are
+   checked together with this file.  Nothing but statements closed by `exact` + Print Assumptions. *)
+From NV Require Import Base.Tac Base.PyVal Model.Ip Model.Merge Model.Sets Proofs.NetDen
+  Proofs.C06_inv Proofs.C06_bulk Proofs.C07_final.
+From NV Require Import Extract.Cmd_Sets.
+Open Scope Z_scope.
+
+Theorem C07_operands_reachable : forall ops r, Forall wf_op ops -> SetInv (get (fold_left ostep ops regs0) r).
+Proof. exact reachable_setinv. Qed.
+Print Assumptions C07_operands_reachable.
+
+Theorem C07_reachable_algebra : forall ops r1 r2, Forall wf_op ops ->
+  let a := get (fold_left ostep ops regs0) r1 in
+  let b := get (fold_left ostep ops regs0) r2 in
+  (exists d, set_intersection a b = Ok d /\ SetInv d /\ forall ver x, den d ver x <-> den a ver x /\ den b ver x) /\
+  (exists d, set_difference a b = Ok d /\ SetInv d /\ forall ver x, den d ver x <-> den a ver x /\ ~ den b ver x) /\
+  (exists d, set_symdiff a b = Ok d /\ SetInv d /\
+     forall ver x, den d ver x <-> (den a ver x /\ ~ den b ver x) \/ (den b ver x /\ ~ den a ver x)) /\
+  (exists d, set_union a b = Ok d /\ SetInv d /\ forall ver x, den d ver x <-> den a ver x \/ den b ver x).
+Proof. exact reachable_algebra. Qed.
+Print Assumptions C07_reachable_algebra.
